@@ -4,6 +4,7 @@
 (* clauses of Dofs.tla.  Events are independent of each other.                 *)
 (*   a = "Number" : tables of one (mesh, element)                              *)
 (*   a = "Matrix" : shape and non-zero pattern of one assembled matrix         *)
+(*   a = "CompositeBasis" : numbering of several bases glued together          *)
 (* For Number events flagged drift = 1 the transcription NumberDofsImpl is      *)
 (* evaluated on the event's own inputs and compared with what the code          *)
 (* reported; the outcome is counted (ModelAgrees / ModelDrift), never judged.   *)
@@ -19,6 +20,7 @@ vars == <<i, bad, cnt>>
 Clauses(e) ==
   IF e.a = "Number" THEN NumberClauses(e)
   ELSE IF e.a = "Matrix" THEN MatrixClauses(e)
+  ELSE IF e.a = "CompositeBasis" THEN CompositeBasisClauses(e)
   ELSE [UnknownEvent |-> FALSE]
 
 Drift(e, r) ==
